@@ -348,7 +348,7 @@ def constant_args_profile(f):
             nm = None
             if is_int(x) and x.get('name'):
                 nm = x['name']
-            elif is_int(x) and not x.get('implicit') and 2 <= abs(x.get('v', 0)) <= 65536:
+            elif is_int(x) and not x.get('implicit') and not x.get('sz') and 2 <= abs(x.get('v', 0)) <= 65536:
                 nm = 'int:%d' % x['v']          # a literal size / count / index (0 and 1 are too common to mean much)
             elif x.get('k') == 'str' and isinstance(x.get('v'), str) and '.' in x['v'] and \
                     _NAME_RE.match(x['v']):
